@@ -21,7 +21,8 @@ EXPLANATION = (
     "to_pyarrow_compute_expression(parse_filter_dict(filter)), the filter is applied on every path with an expression, "
     "and projection follows the filter; (R5) between = GE lo AND LE hi; conjunction is an &-fold."
     " Also: (R6-R10) the pruning decision, the bound codec and the bounds' attachment (shared with C13) - every scan API prunes before it filters."
-    " (R11) each operator handler has its SQL meaning on non-NULL rows: the handler expression is interpreted row-wise over a small ordered domain and compared with the operator's predicate.")
+    " (R11) each operator handler has its SQL meaning on non-NULL rows: the handler expression is interpreted row-wise over a small ordered domain and compared with the operator's predicate."
+    " (R12) the read path keeps no memo (C02.R6: instance, class and module-level state); (R13) one filter engine: FilterOp is interpreted only in the engine's module and every parsed filter feeds to_pyarrow_compute_expression.")
 NOT_DECIDED = ("Arrow kernel semantics (NaN, numeric coercion, pushdown == manual filter); multiset equality across APIs and "
                "batch sizes at run time")
 ASSUMPTIONS = ["Arrow: comparison with a NULL operand yields NULL; is_in(NULL, set without NULL) is False; Kleene and/invert; "
